@@ -30,6 +30,9 @@ def truthy(I, v):
     if isinstance(v, VNone):
         return z3.BoolVal(False)
     if isinstance(v, VRef):
+        if v.cls is not None and v.cls in getattr(I.spec, 'falsy_classes', ()):
+            # objects of unknown user classes (results, yielded values) may be falsy without being None (0, '', empty containers)
+            return z3.And(v.t != core.null(), fn('py_truthy_obj', core.RefSort(), z3.BoolSort())(v.t))
         return v.t != core.null()
     if isinstance(v, (VTuple, VCList)):
         return z3.BoolVal(len(v.items) > 0)
@@ -183,6 +186,35 @@ def py_int_of_str(I, s):
     if I.branch(ok, 'int_ok'):
         return VInt(val)
     raise_(I, 'ValueError', VStr('invalid literal for int()'))
+
+
+LINE_BOUNDARIES_STR = ['\n', '\r', '\x0b', '\x0c', '\x1c', '\x1d', '\x1e', '\x85', '\u2028', '\u2029']
+LINE_BOUNDARIES_BYTES = ['\n', '\r']
+
+
+def str_splitlines(I, v):
+    """x.splitlines() (keepends=False): a symbolic list L of the lines.  Facts used (CPython semantics, trusted and listed):
+    len(L) == 0 iff x == ''; len(L) <= 1 iff x has no line boundary other than ONE terminator at its very end (a boundary
+    character, or CR LF); no element contains a boundary character; every element is an infix of x."""
+    I.st.trusted_used.add('str.splitlines(): list of lines; length 0 iff empty, <= 1 iff the only line boundary (if any) is one terminator '
+                          'at the very end; elements contain no boundary character and are infixes of the input')
+    t = v.t
+    bnd = LINE_BOUNDARIES_BYTES if v.is_bytes else LINE_BOUNDARIES_STR
+    bre = z3.Union(*[z3.Re(zstr(c)) for c in bnd])
+    anyc = z3.AllChar(z3.ReSort(S()))
+    nonb = z3.Diff(anyc, bre)
+    crlf = z3.Re(zstr('\r\n'))
+    single = z3.Union(z3.Concat(z3.Star(nonb), z3.Option(bre)), z3.Concat(z3.Star(nonb), crlf))
+    ek = Bytes if v.is_bytes else Str
+    L = List(ek).fresh('lines')
+    n = L.hi - L.lo
+    I.assume(n >= 0)
+    I.assume((n == 0) == (t == zstr('')))
+    I.assume((n <= 1) == z3.InRe(t, single))
+    i = fresh('li', z3.IntSort())
+    el = z3.Select(L.arrs[0], i)
+    I.assume(z3.ForAll([i], z3.Implies(z3.And(L.lo <= i, i < L.hi), z3.And(z3.Contains(t, el), z3.InRe(el, z3.Star(nonb))))))
+    return L
 
 
 def int_to_str(t):
@@ -353,6 +385,8 @@ def str_method(I, v, name, args, kwargs):
         return VStr(r, B)
     if name == 'split':
         return str_split(I, v, args, kwargs)
+    if name == 'splitlines' and not args and not kwargs:
+        return str_splitlines(I, v)
     if name == 'join':
         return str_join(I, v, args[0])
     if name == 'encode':
